@@ -242,7 +242,7 @@ class Spec:
         if k == "map":
             return (
                 isinstance(v, dict)
-                and all(isinstance(kk, str) for kk in v)
+                and all(isinstance(kk, str) and self._valid_key(t["key"], kk) for kk in v)
                 and all(self.valid(t["value"], x, depth + 1) for x in v.values())
             )
         if k == "or":
@@ -285,6 +285,16 @@ class Spec:
                     return False
             elif not p.get("optional") and not (self.special_optional and self.special(p)):
                 return False
+        return True
+
+    def _valid_key(self, kt, key):
+        """JSON object keys are strings; a map keyed by integer carries the decimal numeral of an in-range integer"""
+        kt = self.expand(kt)
+        if kt["kind"] == "base" and kt["name"] in ("integer", "uinteger"):
+            if not re.fullmatch(r"-?(0|[1-9][0-9]*)", key):
+                return False
+            n = int(key)
+            return (UINT_MIN if kt["name"] == "uinteger" else INT_MIN) <= n <= INT_MAX
         return True
 
     def _is_json(self, v):
@@ -360,7 +370,7 @@ class Spec:
         base = msg.get("typeName") or self.method_class_name(msg["method"])
         if is_request:
             cn = base if base.endswith("Request") else base + "Request"
-            part = cn.replace("Request", "")
+            part = cn[: -len("Request")]  # only the suffix is the marker: `EvoRequestReviewRequest` keeps its inner word
             return part + "Request", part + "Response", part
         cn = base if base.endswith("Notification") else base + "Notification"
         return cn, None, cn
